@@ -23,7 +23,7 @@ ASSUMPTIONS = ["reaction table written from RFC 7252 section 4 and RFC 7967, ind
                "CON requests addressed to a multicast group are not generated (peer misbehaviour the statement does not cover)"]
 EXPECTED_PROBES = ["token_reused_after_completed_exchange", "duplicated_request", "ping", "piggyback", "empty_ack_then_separate", "handler_at_delay_minus_eps", "handler_at_delay_plus_eps",
                    "matched_con_response", "unmatched_con_response_unicast", "unmatched_con_response_multicast",
-                   "no_response_suppressed", "misfit", "request_to_multicast", "reliable_to_multicast", "boundary_message_id", "ipv4_mapped", "peer_request_under_endpoints_next_token"]
+                   "no_response_suppressed", "misfit", "request_to_multicast", "reliable_to_multicast", "boundary_message_id", "ipv4_mapped", "peer_request_under_endpoints_next_token", "crowd_of_pending_requests"]
 
 DELAY = 0.1
 HANDLERS = {"fast": 0.0, "pre": DELAY - 1e-3, "post": DELAY + 1e-3, "slow": 0.5}
@@ -100,7 +100,11 @@ def gen(r, tier):
     if inj and r.chance(0.3):
         # message IDs at the ends of the 16-bit range (0 is a valid message ID)
         r.choice(inj)["mid"] = r.choice([0, 0, 0xFFFF])
-    return {"ops": ops, "v4": r.chance(0.25)}
+    crowd = None
+    if r.chance(0.03):
+        # many other endpoints have a (non-confirmable) request pending at the endpoint meanwhile
+        crowd = {"n": r.choice([100, 1100, 1100]), "release": round(t + 4.0, 3)}
+    return {"ops": ops, "v4": r.chance(0.25), "crowd": crowd}
 
 
 def systematic(tier):
@@ -139,6 +143,10 @@ def systematic(tier):
                                      "no_response": nr, "dst": "uni"},
                                     {"op": "inject", "t": dt, "type": typ2, "cls": "request", "code": rc.GET, "handler": "fast",
                                      "no_response": None, "dst": "uni", "reuse_token": True}]})
+    for n in ((1100,) if tier == "quick" else (100, 1023, 1024, 1025, 2000)):
+        out.append({"ops": [{"op": "inject", "t": 0.5 + 0.3 * k, "type": typ, "cls": "request", "code": rc.GET, "handler": h,
+                             "no_response": None, "dst": "uni"} for k, (typ, h) in enumerate((("NON", "fast"), ("CON", "fast"), ("NON", "slow"), ("CON", "post")))],
+                    "crowd": {"n": n, "release": 5.0}})
     for h in ("fast", "pre", "post", "slow", "raise", "slowraise"):
         for typ in ("CON", "NON"):
             for dt in (0.0, 0.01, 0.05, 0.105, 0.6):
@@ -216,10 +224,20 @@ def execute(sim, scn):
 
         render_get = render_post = render_put = _do
 
+    parked = []
+
+    class Park(resource.Resource):
+        async def render_get(self, request):
+            fut = loop.create_future()
+            parked.append(fut)
+            await fut
+            return Message(payload=b"parked")
+
     async def setup():
         site = resource.Site()
         for h in list(HANDLERS) + ["raise", "slowraise", "ret4", "ret5", "slowret5"]:
             site.add_resource([h], H(h))
+        site.add_resource(["park"], Park())
         return await sim.server(site, SERVER_IP, multicast=[("224.0.1.187" if v4 else MCAST, "sim1")])
 
     ctx = loop.run_until_complete(setup())
@@ -327,9 +345,44 @@ def execute(sim, scn):
         else:
             loop.at(op["t"], do_inject, i, op)
 
+    crowd = scn.get("crowd")
+    crowd_addrs = {}
+    if crowd:
+        sim.probe("crowd_of_pending_requests")
+        crowd_ip = "::ffff:10.0.2.1" if v4 else common.PEER_IPS[2]
+        for i in range(crowd["n"]):
+            ep = ScriptedEndpoint(sim, crowd_ip, 20000 + i)
+            tok = bytes([0xC0, i >> 8, i & 255])
+            crowd_addrs[ep.addr] = tok
+            ep.send(E, raw=rc.encode({"type": rc.NON, "code": rc.GET, "mid": i & 0xFFFF, "token": tok,
+                                      "options": [(rc.URI_PATH, b"park")], "payload": b""}), fate=["at", round(0.0001 + i * 0.00001, 6)])
+
+        def release():
+            for f in parked:
+                if not f.done():
+                    f.set_result(None)
+        loop.at(crowd["release"], release)
+
     sim.run()
 
     wire = sim.net.wire
+    if crowd:
+        # each of them sent one non-confirmable request: one non-confirmable response each, nothing else
+        got = {}
+        for e in wire:
+            if e["src"] == E and e["dst"] in crowd_addrs and e["msg"] is not None:
+                got.setdefault(e["dst"], []).append(e["msg"])
+        for a, tok in crowd_addrs.items():
+            ms = got.get(a, [])
+            bad = [m for m in ms if m["type"] != rc.NON]
+            if bad:
+                sim.violation("C10/non-request-answered-with-other-type", {"crowd_member": tok[1] * 256 + tok[2], "of": crowd["n"],
+                                                                           "sent": rc.summary(bad[0])})
+                break
+            if len(ms) != 1 or ms[0]["token"] != tok or ms[0]["code"] != rc.CONTENT:
+                sim.violation("C10/pending-non-request-not-answered-once", {"crowd_member": tok[1] * 256 + tok[2], "of": crowd["n"],
+                                                                            "sent": [rc.summary(m) for m in ms][:3]})
+                break
     from_e = [e for e in wire if e["src"][1] == 5683 and e["src"][0] in (SERVER_IP, MCAST) and not e["forged"]
               and e["msg"] is not None and e["dst"] != E]
     # global: no CON to multicast, no multicast source address
